@@ -256,7 +256,7 @@ def jobs(tier, seed):
             js.append(Job("c.run.%s%s" % (name, fname), "vlib.stage1:h_stage1",
                           {"shapes": shapes, "opts": dict(fopts, **xo), "checks": ["rollup"]},
                           reach=["C03.rollup(feature)", "C03.rollup(scenario)", "C03.R-covers-reachable(steps)"],
-                          min_paths=5, cost=5000, validate=100 if tier == "quick" else 300))
+                          min_paths=1 if fopts.get("dry_run") is True else 5, cost=5000, validate=100 if tier == "quick" else 300))
     from vlib.shapes import F, S, O, R
     js.append(Job("c.select", "vlib.stage1:h_stage1",
                   {"shapes": [F([S(1), O(1, [(1, []), (1, [])]), R([S(1)])])],
